@@ -24,6 +24,8 @@ CHECKS["C07"] = ("exploration", "5.C07", "multi-connection simulation: requests 
   "The simulator decides delivery order and segmentation of all connections; from the order of the server's reads it derives the exact order in which the single command thread executed every request, and checks every reply (each EXEC slot) and the dataset against the sequential model with per-connection transaction state. This is a linearizability check with the linearization point known from the seam instead of searched. Histories and interleavings are sampled.")
 CHECKS["C08"] = ("exploration", "5.C08", "systematic walk of a finite WATCH scenario catalogue (writer template x key state x route) inside the multi-connection simulation, plus clock-driven expiry and blocked-client routes and random multi-watcher histories",
   "The catalogue of 50 writer templates x 8 key states x 10 routes is walked completely over run indices (evidence marks exhaustive when all rounds ran); the abort/no-abort verdict comes from the sequential model fed in the server's actual execution order. Expiry offsets, served blocking pops and random histories are sampled.")
+CHECKS["C13"] = ("exploration", "5.C13", "multi-connection simulation with virtual-clock timeouts and disconnect injection; conservation, FIFO, promptness and residue oracles at quiescent points, registry read through a guarded accessor",
+  "Seeded search over histories of 2-5 clients with blocking pops, pushes by every path, timeouts driven by the virtual clock to just before/at/after each deadline, and blocked clients disconnecting. The sequential model follows the server's actual execution order; at quiescent points (two idle loop turns) conservation of the element multiset, absence of stranded waiters and of leftover registrations are checked. Interleavings are sampled.")
 NOT_APPLICABLE = []
 def main():
     import json as _j
